@@ -128,10 +128,10 @@ def make_scheduler(kind: str, name: str, p2e, seed: int, mode="min"):
             so["allow_duplicates"] = True      # the exclusion list then only holds the configurations of failed trials
             return cs, FIFOScheduler(cs, searcher="random", search_options=so, **common)
         return cs, FIFOScheduler(cs, searcher=kind[5:], search_options=so, **common)
-    if kind == "hbdeep_bayesopt":
+    if kind.startswith("hbdeep_"):
         # deeper multi-fidelity GP set-up (rung levels 1, 3; max 9) so that the searcher's target resource changes
         cs = make_space(name, maxres=9)
-        return cs, HyperbandScheduler(cs, searcher="bayesopt", search_options={"debug_log": False, "num_init_random": 2},
+        return cs, HyperbandScheduler(cs, searcher=kind[7:], search_options={"debug_log": False, "num_init_random": 2},
                                       resource_attr=RES, max_resource_attr=MAXRES, grace_period=1, reduction_factor=3,
                                       type="stopping", **common)
     if kind.startswith("hbt_"):
@@ -186,7 +186,7 @@ def make_scheduler(kind: str, name: str, p2e, seed: int, mode="min"):
     raise ValueError(kind)
 
 
-NOREPEAT = {"hbt_pasha": True, "hbt_rush_stopping": True, "hbt_rush_promotion": True, "hbt_cost_promotion": True, "moasha": False,
+NOREPEAT = {"hbdeep_hypertune": True, "hbt_pasha": True, "hbt_rush_stopping": True, "hbt_rush_promotion": True, "hbt_cost_promotion": True, "moasha": False,
             "median": True, "hbdeep_bayesopt": True, "fifo_random_dup": False, "fifo_random": True, "fifo_grid": True, "fifo_bayesopt": True, "hb_random": True, "hb_random_promo": True,
             "hb_bayesopt": True, "hb_hypertune": True, "synchb": True, "dehb": False, "pbt": False, "regevo": False}
 
@@ -249,7 +249,7 @@ class Episode:
         self.level[t] = 0
         self.state[t] = "running"
         self.limit[t] = int(s.config.get(MAXRES, 3)) if isinstance(s.config.get(MAXRES, 3), int) else 3
-        if self.kind == "hbdeep_bayesopt":
+        if self.kind.startswith("hbdeep_"):
             self.limit[t] = 9
         e = {"a": "Suggest", "t": t}
         e.update(project(self.name, self.cs, s.config))
